@@ -450,7 +450,7 @@ pub enum Call {
     CreateComment { id: Id, text: String },
     CreatePi { id: Id, target: String, data: String },
     Append { parent: Id, node: Option<Id>, text: Option<String> },
-    AppendBasedOnParent { element: Id, prev: Id, node: Option<Id>, text: Option<String> },
+    AppendBasedOnParent { element: Id, prev: Id, node: Option<Id>, text: Option<String>, element_detached: bool, prev_inside_element: bool },
     AppendBefore { sibling: Id, node: Option<Id>, text: Option<String> },
     Doctype { name: String, public_id: String, system_id: String },
     AddAttrs { target: Id, attrs: Vec<MAttr> },
@@ -890,7 +890,12 @@ impl TreeSink for ModelSink {
         if let Some(t) = &t {
             self.dig_str(t);
         }
-        self.rec(Call::AppendBasedOnParent { element: element.0, prev: prev_element.0, node: n, text: t });
+        let (element_detached, prev_inside_element) = {
+            let dom = self.dom.borrow();
+            let ok = (element.0 as usize) < dom.nodes.len() && (prev_element.0 as usize) < dom.nodes.len();
+            (ok && dom.n(element.0).parent.is_none(), ok && dom.is_inclusive_ancestor(element.0, prev_element.0))
+        };
+        self.rec(Call::AppendBasedOnParent { element: element.0, prev: prev_element.0, node: n, text: t, element_detached, prev_inside_element });
         if !self.chk("append_based_on_parent_node(element)", element)
             || !self.chk("append_based_on_parent_node(prev_element)", prev_element)
         {
